@@ -15,3 +15,5 @@ CONSTANTS
   PartFix = TRUE
   SubAt = "first"
   SyncSteps = TRUE
+  StallSteps = FALSE
+  SkipSeenByListing = FALSE
